@@ -24,7 +24,8 @@ RULE = (
     "library.  data_grid enumerates the full cross product variant x colour code x sync by construction (quick: one, thorough: four "
     "seeded random field settings per cell); data_boundary is a deterministic pass that puts every field of every variant at "
     "each extreme value one at a time (integers 0, 1, max-1, max, top bit only; every enum member; payload bytes/bits "
-    "all-zero, all-ones, single octet/bit, alternating) over two seeded backgrounds, plus all-min / all-max settings and the "
+    "all-zero, all-ones, single octet/bit, alternating; byte-string fields also constant-filled with every octet value - every "
+    "third one in quick) over two seeded backgrounds, plus all-min / all-max settings and the "
     "constructor-settable check fields (CSBK/header/PI CRC, CRC-9, 24-bit full-LC field) at 0 / all-ones / library-computed; "
     "data_random draws everything with Hypothesis.  voice bursts: 216 vocoder bits around each of the four voice sync "
     "patterns, or around the reference QR(16,7,6) codeword of every (colour code, PI, LCSS) (all 128 enumerated) with 32 "
@@ -706,7 +707,8 @@ def drv_data_boundary(ctx: Ctx, sub: SubCheck):
     items = []
     for kind, variant in G.VARIANTS:
         bgs = [G.rng_fields(ctx.rng("boundary_background", kind, variant, i), kind, variant) for i in range(2)]
-        for j, (label, f) in enumerate(G.boundary_cases(kind, variant, bgs)):
+        fill = range(256) if not ctx.quick else sorted(set(range(0, 256, 3)) | {0x1E, 0x1F, 0x7F, 0x80, 0xF7, 0xF8, 0xFE, 0xFF})
+        for j, (label, f) in enumerate(G.boundary_cases(kind, variant, bgs, fill_octets=fill)):
             items.append((label, {"kind": kind, "variant": variant, "f": f, "cc": (0, 15, 8, 1, 7)[j % 5], "sync": SYNC_NAMES[(j // 5) % 4]}))
 
     def work(chunk, t: Tally):
